@@ -404,7 +404,11 @@ class Deriver:
                         yield (rule, s, l, q, qs), self.embed(('N', q, kids), q, par)
 
 
-SPELL = {'NAME': ['a', 'xy', '_z9'], 'NUMBER': ['1', '0x1F', '2.5e3'], 'STRING': ["'s'", '"t"', "b'u'"],
+# spellings of the token classes; which one a token gets rotates with its position in the sentence and the sentence's length,
+# so that every spelling occurs in many contexts although each sentence is rendered once per variant
+SPELL = {'NAME': ['a', 'xy', '_z9', '\xe9t\xe9', 'print', 'match'],
+         'NUMBER': ['1', '0x1F', '2.5e3', '09j', '0_7J', '1_000', '0o17', '0b1', '.5', '1e-3', '00', '1.j', '0_0', '5E1_0j'],
+         'STRING': ["'s'", '"t"', "b'u'", "rb'v'", "'''w'''", 'u"x"', "R'y'", '"""z"""'],
          # literal text of an f-string may be spelled like a keyword or operator of the grammar: it stays literal text
          'FSTRING_START': ["f'", 'f"', "F'"], 'FSTRING_STRING': ['.', 'q', 'if'], 'FSTRING_END': ["'", '"', "'"]}
 
@@ -455,7 +459,10 @@ def render(tree, variant=0):
         if l.startswith("'"):
             txt = l[1:]
         else:
-            txt = SPELL[l][variant % 3] if l in SPELL else l
+            if l in ('NAME', 'NUMBER', 'STRING'):
+                txt = SPELL[l][(variant + len(out) + len(toks)) % len(SPELL[l])]
+            else:
+                txt = SPELL[l][variant % 3] if l in SPELL else l
         literal_ctx = bool(in_f) and in_f[-1] == 0
         if at_line_start:
             out.append(ind_unit * indent)
